@@ -280,53 +280,100 @@ def _loops_with_call(body, eng, suffix):
     return out
 
 
+def lift_term(ctx, cfg, fr, term):
+    """express a term of frame `fr` in the symbols of the entry point of the walk (parameters through call arguments,
+    closure captures through the captured operands)."""
+    from flow import ClosureFrame
+    from zone import tadd
+    za = ctx.zone(cfg)
+    for _ in range(12):
+        if term is None or term[0] is None or fr.parent is None:
+            return term
+        sym, c = term
+        pz = za.zf(fr.parent.path)
+        if isinstance(fr, ClosureFrame):
+            if sym.startswith('cap') and sym[3:].isdigit() and fr.caps is not None and int(sym[3:]) < len(fr.caps):
+                term = tadd(pz.term_op(fr.caps[int(sym[3:])]), c)
+                fr = fr.parent
+                continue
+            return term
+        if sym.startswith('p') and sym[1:].isdigit() and fr.call is not None and int(sym[1:]) - 1 < len(fr.call['args']):
+            term = tadd(pz.term_op(fr.call['args'][int(sym[1:]) - 1]), c)
+            fr = fr.parent
+            continue
+        return term
+    return term
+
+
 def rule_key_generation(ctx, cfg='prod-all'):
+    from flow import walk
     prog, eng, ga = ctx.prog(cfg), ctx.eng(cfg), ctx.gates(cfg)
+    za = ctx.zone(cfg)
     KG = 'cl03::keys::<impl keys::pair::KeyPair<schemes::algorithms::CL03<CS>>>::generate'
     CK = 'cl03::keys::CL03CommitmentPublicKey::generate'
-    targets = [KG]
-    # the commitment key generates its own modulus inside a closure
-    targets += [p for p in prog.bodies if p.startswith(CK + '::{closure')]
-    if KG not in prog.bodies or len(targets) < 2:
+    if KG not in prog.bodies or CK not in prog.bodies:
         raise AnchorMissing('CL03 key generation functions')
-    for fn in targets:
-        b = prog.bodies[fn]
-        fd = eng.fndep(fn)
-        loops = _loops_with_call(b, eng, 'random_prime')
-        yield Ob('RF-Q', '%s#two-prime-loops' % fn, len(loops) == 2, 'one generate-and-test loop per safe prime', b.span, fact=len(loops), expected=2)
-        for k, (h, blocks) in enumerate(loops):
-            prim = False
-            distinct = False
-            for x in blocks:
+    for entry in (KG, CK):
+        frames = list(walk(eng, entry))
+        sites = []
+        for fr in frames:
+            for bi, t in fr.body.calls():
+                if (local_target(eng, t) or '').endswith('utils::random::random_prime'):
+                    sites.append((fr, bi, t))
+        ekey = entry
+        yield Ob('RF-Q', '%s#prime-searches' % ekey, len(sites) >= 2, 'two safe-prime searches are reachable (p and q)', prog.bodies[entry].span,
+                 fact={'random_prime_call_sites (per calling context)': len(sites)}, expected='>= 2')
+        distinct = False
+        for fr in frames:
+            b, fd = fr.body, fr.fd
+            for x in range(b.n):
                 t = b.blocks[x]['term']
-                if t['k'] != 'switch':
+                if b.blocks[x]['cleanup'] or t['k'] != 'switch':
                     continue
-                g = classify_switch(eng, fd, x)
-                for g2 in ga._flatten(g):
-                    w = g2.what or ''
-                    ats = g2.all_atoms()
-                    if 'PartialEq' in w and g2.args and g2.args[0]['k'] in ('copy', 'move') and not g2.args[0]['pl'].get('p'):
-                        oc = origin_call(ctx.zone(cfg).zf(fn), g2.args[0]['pl']['l'])
-                        if oc is not None and (oc.get('callee') or '').endswith('is_probably_prime'):
-                            prim = True
-                    if 'PartialEq' in w and not any('IsPrime' in str(a) for a in ats) and sum(1 for a in ats if a[0] == 'o') >= 1 and g2.kind == 'call' and len(g2.operands) == 2 \
-                            and all(any(a[0] == 'o' for a in o) for o in g2.operands):
-                        distinct = True
-            # exit of the loop must be control dependent on the primality comparison: the block after the loop
-            calls_ipp = any(b.blocks[x]['term']['k'] == 'call' and (b.blocks[x]['term'].get('callee') or '').endswith('is_probably_prime') for x in blocks)
-            yield Ob('RF-Q', '%s#loop[%d]:primality-exit' % (fn, k), calls_ipp and prim,
-                     'the loop is left only after is_probably_prime(2 * p\' + 1) != No', b.span, fact={'is_probably_prime_in_loop': calls_ipp, 'compared_with_IsPrime::No': prim}, expected='true')
-            if k == 1:
-                yield Ob('RF-Q', '%s#loop[1]:distinct' % fn, distinct, 'the second prime is accepted only if it differs from the first', b.span, fact=distinct, expected=True)
-        # shape p = 2 * p' + 1 with p' = random_prime(SECPARAM)
-        shapes = 0
-        for l, loc in enumerate(b.locals):
-            if loc.get('name') in ('p', 'q') and loc['ty'] == 'rug::Integer':
-                at = fd.read_place({'l': l})
-                if any(a == ('c', '2') for a in at) and any(a == ('c', '1') for a in at) and any(a[0] == 'o' and a[1].endswith('thread_rng') for a in at) \
-                        and (any(a[0] == 'a' and a[1].endswith('SECPARAM') for a in at) or (b.kind == 'Closure' and any(strip(a)[0] == 'p' for a in at))):
-                    shapes += 1
-        yield Ob('RF-Q', '%s#safe-prime-shape' % fn, shapes >= 2, 'p and q are 2 * random_prime(SECPARAM) + 1 with CSPRNG provenance', b.span, fact=shapes, expected='>= 2')
+                for g2 in ga._flatten(classify_switch(eng, fd, x)):
+                    if 'PartialEq' in (g2.what or '') and g2.kind == 'call' and len(g2.operands) == 2 and g2.args:
+                        srcs = []
+                        for a in g2.args[:2]:
+                            if a['k'] in ('copy', 'move'):
+                                at = fr.lift(fd.read_op(a))
+                                srcs.append(any(x_[0] == 'o' and x_[1].endswith('thread_rng') for x_ in at) and any(x_ == ('c', '2') for x_ in at))
+                        if len(srcs) == 2 and all(srcs):
+                            distinct = True
+        yield Ob('RF-Q', '%s#distinct-primes' % ekey, distinct, 'the two primes are compared with each other before the modulus is formed', prog.bodies[entry].span,
+                 fact=distinct, expected=True)
+        for k, (fr, bi, t) in enumerate(sites):
+            b, fd = fr.body, fr.fd
+            zf = za.zf(fr.path)
+            if b.kind != 'Closure':
+                za.summary(fr.path)
+            ctxname = ' > '.join(x.split('::')[-1] for x in fr.chain())
+            loops = [(h, bl) for h, bl in b.natural_loops() if bi in bl]
+            in_loop = bool(loops)
+            prim = False
+            shape = False
+            for h, bl in loops:
+                for x in bl:
+                    tt = b.blocks[x]['term']
+                    if tt['k'] == 'call' and (tt.get('callee') or '').endswith('is_probably_prime') and tt['args'] and tt['args'][0]['k'] in ('copy', 'move'):
+                        at = fd.read_op(tt['args'][0])
+                        if ('c', '2') in at and ('c', '1') in at and any(a[0] == 'o' and a[1].endswith('thread_rng') for a in at):
+                            shape = True
+                    if tt['k'] == 'switch':
+                        for g2 in ga._flatten(classify_switch(eng, fd, x)):
+                            if 'PartialEq' in (g2.what or '') and g2.args and g2.args[0]['k'] in ('copy', 'move') and not g2.args[0]['pl'].get('p'):
+                                oc = origin_call(zf, g2.args[0]['pl']['l'])
+                                if oc is not None and (oc.get('callee') or '').endswith('is_probably_prime'):
+                                    prim = True
+            yield Ob('RF-Q', '%s#search[%d]:loop-exit' % (ekey, k), in_loop and prim,
+                     "the search loop is left only after is_probably_prime(candidate) != No", '%s L%s' % (b.file(), t['line']),
+                     fact={'context': ctxname, 'in_loop': in_loop, 'exit_compares_is_probably_prime': prim}, expected='true')
+            yield Ob('RF-Q', '%s#search[%d]:safe-prime-shape' % (ekey, k), shape, "the tested candidate is 2 * p' + 1 with p' from the CSPRNG", '%s L%s' % (b.file(), t['line']),
+                     fact={'context': ctxname, 'shape': shape}, expected=True)
+            term = lift_term(ctx, cfg, fr, zf.term_op(t['args'][0]))
+            ok = term is not None and term[0] is not None and term[0].endswith('SECPARAM') and term[1] == 0
+            from zone import tfmt
+            yield Ob('RF-Q', '%s#search[%d]:bits' % (ekey, k), ok, "p' = random_prime(SECPARAM): the safe prime has SECPARAM + 1 bits", '%s L%s' % (b.file(), t['line']),
+                     fact={'context': ctxname, 'argument': tfmt(term)}, expected='N:SECPARAM')
     # random_qr
     RQ = 'utils::random::random_qr'
     b = prog.bodies.get(RQ)
